@@ -477,5 +477,6 @@ REGISTRY["C16"] = {
         M("c16_per_ip_limit", "effective_max_connections_per_ip, cluster_ip_at_limit and its count-test closure; lookups uninterpreted", "limit = override.unwrap_or(global); limit 0 => false; token already tracked => false; otherwise exactly the count test, which is count >= limit over the resolved limit", SV, prop="c16", which="per_ip_limit"),
         M("c16_per_ip_gate_call_sites", "whole Router::connect (290 blocks) and TcpSession::connect_to_backend (152 blocks), loops unrolled 2x, callees uninterpreted", "backend selection / connection after the gate only with answer false and after track_cluster_ip; tracking only after an admitting answer; at-limit => Err; same token checked and tracked", SV + ["lib/src/protocol/mux/router.rs", "lib/src/tcp.rs"], prop="c16", which="per_ip_gate"),
         M("c16_timer_slot_hint_is_min", "whole Timer::poll_to, loop unrolled once more; slab / wheel indexing uninterpreted, cmp::min exact", "a store into a slot's next_tick that is not the TICK_MAX reset is <= the visited entry's tick and <= the slot's previous next_tick (an earlier pending timeout of the slot is never forgotten)", ["lib/src/timer.rs"], prop="c16", which="timer_hint"),
+        M("c16_tcp_session_records_its_backend", "whole TcpSession::connect_to_backend (152 blocks), loops unrolled 2x, callees uninterpreted", "every path that returns Ok after backend_from_cluster_id (which counted the connection) stores Some(handle) into self.backend, the only thing remove_backend / fail_backend_connection act on", ["lib/src/tcp.rs", "lib/src/backends.rs"], prop="c16", which="tcp_backend_handle"),
     ],
 }
